@@ -147,7 +147,7 @@ def rng_false():
 # ---------------------------------------------------------------- git log / commit meta
 
 def commit_header(rng):
-    h = ''.join(rng.choice('0123456789abcdef') for _ in range(40))
+    h = ''.join(rng.choice('0123456789abcdef') for _ in range(rng.choice([40, 40, 40, 7, 8, 12])))     # full, or --abbrev-commit
     lines = ['commit ' + h + rng.choice(['', ' (HEAD -> main)', ' (tag: v1.0, origin/main)']),
              'Author: %s <a@b.c>' % rng.choice(AUTHORS), 'Date:   Mon Jan 1 00:00:00 2024 ' + rng.choice(ZONES), '']
     for _ in range(rng.randint(1, 3)):
